@@ -84,7 +84,11 @@ type vTransNode struct {
 func vTransCfg(dir string) *ServerConfig {
 	cfg := &ServerConfig{}
 	parse := flags.NewParser(cfg, flags.Default)
-	if _, err := parse.ParseArgs([]string{"--data_dir", dir, "--db_concurrent", "2", "--db_fast_key_count", "4096", "--log_level", "ERROR", "--log", dir + "/slock.log"}); err != nil {
+	level := "ERROR"
+	if os.Getenv("VERIF_TRANS_DEBUG") != "" {
+		level = "INFO"
+	}
+	if _, err := parse.ParseArgs([]string{"--data_dir", dir, "--db_concurrent", "2", "--db_fast_key_count", "4096", "--log_level", level, "--log", dir + "/slock.log"}); err != nil {
 		panic(err)
 	}
 	return cfg
@@ -1179,7 +1183,25 @@ func (x *vTransRun) evClose(c *vTransConn) {
 	x.waitFor(func() bool { return len(x.w.F.srv.GetStreams()) < n0 }, 2*time.Second)
 	if expectFwd {
 		last := c.wills[len(c.wills)-1]
-		x.waitFor(func() bool { return x.willSeen(last) }, 3*time.Second)
+		if !x.waitFor(func() bool { return x.willSeen(last) }, 3*time.Second) && os.Getenv("VERIF_TRANS_DEBUG") != "" {
+			fmt.Fprintf(os.Stderr, "DEBUG case %d: last will %d of conn %d not seen; proxy links:\n", x.caseNo, last.tok, c.idx)
+			for _, l := range x.w.px.snapshot() {
+				l.mu.Lock()
+				var ups []string
+				for _, f := range l.up {
+					ups = append(ups, vTransCmdStr(f, x.w.tokOf))
+				}
+				fmt.Fprintf(os.Stderr, "DEBUG   link %d dead=%v upTail=%d up=%v down=%d\n", l.id, l.dead, len(l.upTail), ups, len(l.down))
+				l.mu.Unlock()
+			}
+			if lg, err := os.ReadFile(x.w.F.s.aof.dataDir + "/slock.log"); err == nil {
+				lines := strings.Split(string(lg), "\n")
+				if len(lines) > 25 {
+					lines = lines[len(lines)-25:]
+				}
+				fmt.Fprintf(os.Stderr, "DEBUG follower log tail:\n%s\n", strings.Join(lines, "\n"))
+			}
+		}
 	}
 	if c.kind == 'b' && c.link != nil {
 		l := c.link
@@ -1462,14 +1484,9 @@ func (x *vTransRun) evLeaderFrames(c *vTransConn) {
 		}
 		// did the answer overtake Write's bookkeeping? (the link object still has the command as its latest in-flight one)
 		if terr == nil && c.latest == tok && x.stillLatest(c, f, len(cl) > 0) {
-			if x.strict {
-				// the proxy held this frame back for 20 ms after the command had left: Write's two assignments were long done
-				x.report("C10:answer-did-not-clear-latest", fmt.Sprintf("the leader's answer %s was relayed %s after the command had been written, yet the link still has it as its latest in-flight command (the next link loss will \"roll back\" an answered request)", op, vTransStrictDelay))
-			} else {
-				op = "re" + op[1:]
-				c.stale = true
-				x.out.stat("observed:C10:answer-overtook-latest-bookkeeping")
-			}
+			// Write records the command as the link's latest one BEFORE its bytes leave (repaired): whichever goroutine runs first,
+			// the answer finds it and clears it. Every case is strict about this now; the model's `re` input is no longer produced.
+			x.report("C10:answer-did-not-clear-latest", fmt.Sprintf("the leader's answer %s has been handled, yet the link still has the command as its latest in-flight one (the next link loss will \"roll back\" an answered request)", op))
 		}
 		x.ev(op, vTransJoin(cl)+"|"+vTransJoin(x.takeForwarded(nil)))
 		if c.half && terr == nil && c.awaiting == tok {
@@ -2366,10 +2383,13 @@ func vTransScriptWills(x *vTransRun) {
 	// (kind, variant) cycles deterministically with the case number, so that a quick run holds every combination that matters
 	combos := [][2]int{{'b', 0}, {'t', 0}, {'b', 2}, {'t', 2}, {'b', 1}, {'b', 3}, {'t', 1}, {'t', 3}}
 	cb := combos[(x.caseNo/vTransNScripts)%len(combos)]
+	if f := vEnvInt("VERIF_TRANS_COMBO", -1); f >= 0 {
+		cb = combos[f%len(combos)]
+	}
 	kind, variant := byte(cb[0]), cb[1]
 	c := x.evAccept(kind)
 	k0, k1, id := x.w.fresh(), x.w.fresh(), x.w.fresh()
-	if kind == 'b' && x.r.Intn(2) == 0 {
+	if kind == 'b' && (x.r.Intn(2) == 0 || vEnvInt("VERIF_TRANS_COMBO", -1) >= 0) {
 		x.evRequest(c, &vTransReq{typ: 'I', tok: x.w.fresh(), cid: x.w.fresh()})
 	}
 	x.evRequest(c, x.lockReq('L', k0, id, 0, 60))
@@ -2379,6 +2399,11 @@ func vTransScriptWills(x *vTransRun) {
 	wl := x.lockReq('L', k1, x.w.fresh(), 0, 5)
 	wl.will = true
 	x.evRequest(c, wl)
+	for i := 0; i < vEnvInt("VERIF_TRANS_WILLS", 0); i++ { // stress: many wills widen the window of the write loop in Close
+		w := x.lockReq('L', x.w.fresh(), x.w.fresh(), 0, 5)
+		w.will = true
+		x.evRequest(c, w)
+	}
 	x.evRequest(c, &vTransReq{typ: 'O', tok: x.w.fresh()})
 	switch variant {
 	case 1: // the link is gone when the connection closes: a new one is opened for the wills
@@ -2454,8 +2479,9 @@ func vTransCase(w *vTransWorld, out *vOut, seed int64, idx int, script int) {
 	_ = w.manager().ChangeLeader(w.px.addr)
 	time.Sleep(2 * time.Millisecond)
 	x.takeForwarded(nil)
-	x.strict = idx%4 == 1
-	if x.strict {
+	x.strict = true
+	// every eighth case additionally has the leader's frames held back 20 ms (answers that arrive late rather than early)
+	if idx%8 == 1 {
 		atomic.StoreInt64(&w.px.delay, int64(vTransStrictDelay))
 	} else {
 		atomic.StoreInt64(&w.px.delay, 0)
